@@ -107,7 +107,9 @@ CHECKS = {
         text="TLC model-checks Lsp.tla (document store with disk caching, staleness flag, pending errors, published diagnostics; "
              "DidOpen/DidChange/DidClose and Refresh split into Evaluate and Publish as in the code) over every history of up to 5 "
              "(quick) / 7 (thorough) events on a 4-document workspace with syntax, compile and evaluation defects and import cycles: "
-             "NoDrift, HistoryIndependent, StaleCleared; a second configuration keeps the pinned publish rule, in which TLC itself finds "
+             "NoDrift, HistoryIndependent, StaleCleared; a third configuration (Lsp_unbounded.cfg) hides the history variables behind a VIEW and "
+             "closes the complete reachable graph, i.e. every history of any length (16 755 states), printing one shortest history per "
+             "quiescent state (471), all of which are replayed; a further configuration keeps the pinned publish rule, in which TLC itself finds "
              "the stale-diagnostic history. Histories printed by TLC (one per abstract state at the bound) are replayed on the real "
              "oal-lsp with concrete multi-byte/CRLF sources and random incremental UTF-16 edits; after every refresh the published "
              "diagnostics are compared with the specification's and at the end with those of a fresh real server handed the final "
@@ -115,7 +117,7 @@ CHECKS = {
              "server-side text is compared with the client's after every notification in process (hook H4). P2UMonotone/EditAgrees in "
              "Unicode.tla cover the conversion of edit ranges.",
         note="Trusted: TLC, the JSON-RPC client, the realisation of abstract texts, the Python model of client-side edit application. Domain: protocol-conforming notifications; files on disk unchanged during a history.",
-        technique="TLA+ state machine of the language server (TLC, all histories up to 5/7 events) + replay of TLC-generated histories on the real oal-lsp with a fresh-server oracle + in-process text-drift check",
+        technique="TLA+ state machine of the language server (TLC, all histories up to 5/7 events, and the complete state graph for histories of any length) + replay of TLC-generated histories on the real oal-lsp with a fresh-server oracle + in-process text-drift check",
     ),
     "C08": dict(
         design_ref="DESIGN.md 3.6 (Resolve.tla), 4 (C08)",
